@@ -156,7 +156,7 @@ def b1_b2(F, R, b):
     nsc = 0
     barinfo = 'transport::pci::bus::BarInfo'
     for desc, slot, bars, want in scenarios():
-        for command in (0x0, 0x1, 0x2, 0x3, 0x107):
+        for command in (0x0, 0x1, 0x2, 0x3, 0x107, 0x407, 0x57f):     # every defined command bit (0-6, 8-10) occurs at least once
             nsc += 1
 
             def base_leaf(t, slot=slot):
